@@ -63,7 +63,8 @@ def label_value(label, eid, dup):
     if label == "taxa":
         return "t%02d" % (eid % 3) if dup else "t%03d" % eid
     if label == "taxa_grp":
-        return (eid * 5) % 3
+        # every fifth entity belongs to a group whose id does not fit a narrow integer dtype
+        return 300 + (eid * 7) % 700 if eid % 5 == 4 else (eid * 5) % 3
     if label == "vrnt_chrgrp":
         return (eid * 7) % 3 + 1
     if label == "vrnt_phypos":
@@ -87,8 +88,17 @@ def label_value(label, eid, dup):
     raise AssertionError(label)
 
 
-def label_array(label, elems, dup):
-    vals = [None if label in el[1] else label_value(label, el[0], dup) for el in elems]
+def elem_value(label, el, dup):
+    # el = (id, labels that are None, block, labels given explicitly by the caller: those take the value of entity id+500)
+    if label in el[1]:
+        return None
+    return label_value(label, el[0] + (500 if (len(el) > 3 and label in el[3]) else 0), dup)
+
+
+def label_array(label, elems, dup, narrow=False):
+    vals = [elem_value(label, el, dup) for el in elems]
+    if narrow and label == "taxa_grp" and all(v is not None and -128 <= v <= 127 for v in vals):
+        return numpy.array(vals, dtype="int8")          # a legal, narrower integer dtype for the group labels
     if label in OBJ:
         a = numpy.empty(len(vals), dtype=object)
         for i, v in enumerate(vals):
@@ -154,12 +164,12 @@ def build_mat(fam, elems):
     return tot.astype("float64")
 
 
-def make_matrix(fam, elems, present, dup):
+def make_matrix(fam, elems, present, dup, narrow=False):
     kw = dict(fam.extra)
     for k in fam.labelled:
         for lb in LABELS[k]:
             if present[lb]:
-                kw[lb] = label_array(lb, elems[k], dup)
+                kw[lb] = label_array(lb, elems[k], dup, narrow)
     return fam.cls(mat=build_mat(fam, elems), **kw)
 
 
@@ -218,12 +228,14 @@ def program(draw, families):
                "idxform": draw(st.sampled_from(["int", "negint", "slice", "list", "array", "mask"])),
                "raw": [draw(RAW) for _ in range(6)],
                "k": draw(st.integers(1, 3)),
-               "valform": draw(st.sampled_from(["matrix", "matrix", "ndarray", "matrix_no_names", "matrix_missing_required", "ndarray_no_names"])),
+               "valform": draw(st.sampled_from(["matrix", "matrix", "ndarray", "matrix_no_names", "matrix_missing_required", "ndarray_no_names",
+                                                "matrix_with_overrides"])),
                "keys": draw(st.sampled_from([None, None, "one", "two"])),
                "concat_pos": draw(st.integers(0, 2)),
                "deep": draw(st.booleans())}
         steps.append(stp)
-    return {"family": famname, "sizes": sizes, "present": present, "dup": draw(st.booleans()), "steps": steps}
+    return {"family": famname, "sizes": sizes, "present": present, "dup": draw(st.booleans()), "steps": steps,
+            "narrow": draw(st.sampled_from([False, False, True]))}
 
 
 # ------------------------------------------------------------------------------------------------------------------
@@ -278,14 +290,15 @@ class Harness:
         for k in self.fam.kinds:
             n = self.fam.fixed[k] if k in self.fam.fixed else case["sizes"][k]
             self.elems[k] = [self.fresh(k) for _ in range(n)]
-        self.x = make_matrix(self.fam, self.elems, self.present, self.dup)
+        self.x = make_matrix(self.fam, self.elems, self.present, self.dup, narrow=bool(case.get("narrow")) and not self.fam.square)
+        self.ctx.label("narrow_group_dtype", bool(case.get("narrow")) and self.x.taxa_grp is not None and self.x.taxa_grp.dtype == numpy.dtype("int8")) if "taxa" in self.fam.labelled and not self.fam.square else None
         self.trace = []
         self.ancestors = []
 
     def fresh(self, k, none=()):
         eid = self.next_id[k]
         self.next_id[k] += 1
-        return (eid, frozenset(none), self.block)
+        return (eid, frozenset(none), self.block, frozenset())
 
     def axis_of(self, k):
         return self.fam.kinds.index(k)
@@ -369,13 +382,22 @@ class Harness:
             pres[missing_required] = False
         if form.startswith("matrix"):
             el_plain = dict(el)
-            el_plain[k] = [(e[0], frozenset(), e[2]) for e in new]
+            el_plain[k] = [(e[0], frozenset(), e[2], frozenset()) for e in new]
             vals = make_matrix(fam, el_plain, pres, self.dup)
-            return vals, {}, new, missing_required is not None
+            kw = {}
+            if form == "matrix_with_overrides":
+                # a matrix operand plus explicit label arrays for SOME labels: the explicit ones win, the others come from the matrix
+                cand = [lb for lb in labs if pres[lb]]
+                chosen = [lb for q, lb in enumerate(cand) if (stp["raw"][q % 6] + q) % 3 == 0] or cand[:1]
+                new = [(e[0], e[1], e[2], frozenset(chosen)) for e in new]
+                for lb in chosen:
+                    kw[lb] = label_array(lb, new, self.dup)
+                self.ctx.label("matrix_operand_with_partial_label_overrides", bool(chosen))
+            return vals, kw, new, missing_required is not None
         kw = {}
         for lb in labs:
             if pres[lb]:
-                kw[lb] = label_array(lb, [(e[0], frozenset(), e[2]) for e in new], self.dup)
+                kw[lb] = label_array(lb, [(e[0], frozenset(), e[2], frozenset()) for e in new], self.dup)
         return build_mat(fam, el), kw, new, False
 
     # -------------------------------------------------------------------------------------------------------------
@@ -449,6 +471,13 @@ class Harness:
         if op in ("insert", "adjoin", "append", "incorp", "concat"):
             values, kw, new, expect_reject = self.operand(k, stp)
             vsnap = full_state(fam, values) if not isinstance(values, numpy.ndarray) else {"mat": values.copy()}
+            if op in ("insert", "incorp") and k == "taxa" and self.present.get("taxa_grp") and getattr(x, "taxa_grp", None) is not None:
+                gvals = [elem_value("taxa_grp", e, self.dup) for e in new]
+                info = numpy.iinfo(x.taxa_grp.dtype)
+                too_wide = any(v is not None and not (info.min <= v <= info.max) for v in gvals)
+                ctx.label("insert_group_id_wider_than_receiver_dtype", too_wide)
+                if too_wide and ctx.known("F-C03-f", True):
+                    return
             if op in ("insert", "incorp"):
                 if stp["idxform"] in ("list", "array") and len(new) > 1:
                     pos = sorted(int(stp["raw"][q] % (n + 1)) for q in range(len(new)))
@@ -480,6 +509,7 @@ class Harness:
             if op == "concat":
                 if isinstance(values, numpy.ndarray) or expect_reject:
                     return
+                new = [(e[0], e[1], e[2], frozenset()) for e in new]      # concat takes matrices only: no explicit label arrays
                 # concat takes a list of same-class matrices; labels absent on one operand are None-filled (names) or rejected (others)
                 order = [x, values] if stp["concat_pos"] != 1 else [values, x]
                 idm = numpy.concatenate([numpy.arange(n), -1 - numpy.arange(len(new))]) if order[0] is x else numpy.concatenate([-1 - numpy.arange(len(new)), numpy.arange(n)])
@@ -615,7 +645,7 @@ class Harness:
             elems = self.elems[k]
             if keyspec is None:
                 keylabs = [lb for lb in SORTKEYS[k] if self.present[lb]]
-                keycols = [[None if lb in el[1] else label_value(lb, el[0], self.dup) for el in elems] for lb in keylabs]  # primary first
+                keycols = [[elem_value(lb, el, self.dup) for el in elems] for lb in keylabs]  # primary first
                 keys_arg = None
             else:
                 ids = [el[0] for el in elems]
